@@ -61,8 +61,10 @@ def check_program(prog: Dict[str, Any], acc: Acc):
         # unroll a FRESH instance of the same program (observing before unrolling is a C03 history, not C01)
         built2 = bp.build(prog, bp.Ctx(prog.get("settings")))
         stats: Dict[str, int] = {}
-        top_reps = M.reps_of(M.MNode(is_block=True, reps=prog["circuit"].get("reps", 1)), ctx.S)
-        unrolled_model = M.unroll(built2.top.mnodes, top_reps, ctx.S, stats)
+        # the model is unrolled under the settings of the fresh instance (built2.ctx.S), not under the re-assigned registry of the first
+        # one: which leaf ends latest - hence where the copies go - depends on the durations (false alarm of thorough seed 5, DESIGN.md 9.3)
+        top_reps = M.reps_of(M.MNode(is_block=True, reps=prog["circuit"].get("reps", 1)), built2.ctx.S)
+        unrolled_model = M.unroll(built2.top.mnodes, top_reps, built2.ctx.S, stats)
         modified = built2.top.circuit.apply_modifiers()
         acc.count("unrolled_programs")
         if stats.get("unroll_degenerate"):
